@@ -76,6 +76,7 @@ func mkCompound(name string, wrap wrapFn, subNames ...string) Pipe {
 
 func registerCompounds() {
 	registerLevelVariants()
+	registerLevelInfluence()
 	// auxiliary pipelines used as oracles by the checks (not library pipelines under test)
 	register(Pipe{Name: "aux.Closings", Class: "aux", Inputs: snapIn, Params: ps(), Default: cfgOf(),
 		Make: func(cfg []int) Inst {
@@ -195,6 +196,44 @@ func registerLevelVariants() {
 				return stratInst(s, nil)
 			}})
 	}
+}
+
+// registerLevelInfluence: triples of entries (class aux) that differ in ONE documented level only - the base levels, the same
+// with another Sell level, the same with another Buy level - for the check that a documented level has an influence on the
+// recommendations it is documented for (property C06).
+func registerLevelInfluence() {
+	type lv struct {
+		tag       string
+		buy, sell float64
+	}
+	reg := func(name string, params []string, def []int, fields []string, levels []lv, mk func(buy, sell float64, cfg []int) strategy.Strategy) {
+		for _, l := range levels {
+			l := l
+			register(Pipe{Name: "levels." + name + "/" + l.tag, Class: "aux", Inputs: snapIn, Params: params, Default: def, Fields: fields,
+				Make: func(cfg []int) Inst { return stratInst(mk(l.buy, l.sell, cfg), nil) }})
+		}
+	}
+	reg("RsiStrategy", ps("period"), cfgOf(momentum.DefaultRsiPeriod), []string{"Close"},
+		[]lv{{"base", 30, 70}, {"sell", 30, 55}, {"buy", 45, 70}},
+		func(b, s float64, cfg []int) strategy.Strategy {
+			x := smomentum.NewRsiStrategyWith(b, s)
+			x.Rsi.Rma.Period = cfg[0]
+			return x
+		})
+	reg("StochasticRsiStrategy", ps("period"), cfgOf(momentum.DefaultStochasticRsiPeriod), []string{"Close"},
+		[]lv{{"base", 0.1, 0.7}, {"sell", 0.1, 0.3}, {"buy", 0.25, 0.7}},
+		func(b, s float64, cfg []int) strategy.Strategy {
+			x := smomentum.NewStochasticRsiStrategyWith(b, s)
+			x.StochasticRsi = momentum.NewStochasticRsiWithPeriod[float64](cfg[0])
+			return x
+		})
+	reg("MoneyFlowIndexStrategy", ps("period"), cfgOf(volume.DefaultMfiPeriod), []string{"Close", "High", "Low", "Volume"},
+		[]lv{{"base", 20, 80}, {"sell", 20, 60}, {"buy", 40, 80}},
+		func(b, s float64, cfg []int) strategy.Strategy {
+			x := svolume.NewMoneyFlowIndexStrategyWith(s, b)
+			x.MoneyFlowIndex.Sum.Period = cfg[0]
+			return x
+		})
 }
 
 func ftoa(f float64) string { return strconv.FormatFloat(f, 'g', -1, 64) }
